@@ -366,7 +366,7 @@ Qed.
 
 (* ---------------------------------------------------------- file_reader *)
 Definition hdr_phaselist (f : angfile (T:=T)) : result (list (Z * phase (T:=T))) :=
-  phaselist Op (hdr_ids_of f) (hdr_names_of f) [] (map ap_sym (af_phases f))
+  phaselist Op (hdr_ids_of f) (hdr_names_of f) [] (map Some (map ap_sym (af_phases f)))
             (firstn (List.length (hdr_names_of f)) (map ap_lat (af_phases f))).
 
 Definition pv (g : apoint (T:=T) -> T) (pts : list (apoint (T:=T))) : nat * list T := (1%nat, map g pts).
